@@ -83,10 +83,16 @@ public:
     }
 
     static void invoke_epoch_thread() {
+        // fin() of a previous init()/fin() cycle left the stop flag raised.
+        kEpochThreadEnd.store(false, std::memory_order_release);
         kEpochThread = std::thread(epoch_thread);
     }
 
-    static void invoke_gc_thread() { kGCThread = std::thread(gc_thread); }
+    static void invoke_gc_thread() {
+        // fin() of a previous init()/fin() cycle left the stop flag raised.
+        kGCThreadEnd.store(false, std::memory_order_release);
+        kGCThread = std::thread(gc_thread);
+    }
 
     static void join_epoch_thread() { kEpochThread.join(); }
 
